@@ -12,7 +12,7 @@ import (
 	"sort"
 	"strings"
 
-	"golang.org/x/tools/go/ssa"
+	"gclverify/xt/ssa"
 )
 
 type LockSet map[string]bool // key: access path; value: true = exclusive, false = shared (read lock)
